@@ -342,14 +342,36 @@ class NegateExpression(UnaryExpression):
         return -value
 
     def __str__(self) -> str:
-        inner: Union[Optional[MathExpression], str] = self.get_child()
-        binary_types = (
-            AddExpression,
-            SubtractExpression,
+        inner = self.get_child()
+        text = f"{inner}"
+        needs_parens = isinstance(inner, (AddExpression, SubtractExpression))
+        # "--x" is not valid syntax, and a minus sign directly in front of a literal
+        # becomes part of that literal: "-4!" is (-4)! and "-5^2" is (-5)^2
+        if text.startswith("-") or self._binds_leading_literal(inner):
+            needs_parens = True
+        # a negated product or quotient keeps its grouping as a divisor: a / -(b * c)
+        if (
+            isinstance(inner, (MultiplyExpression, DivideExpression))
+            and isinstance(self.parent, DivideExpression)
+            and self.parent.right is self
+        ):
+            needs_parens = True
+        if needs_parens:
+            text = f"({text})"
+        return self.with_color(f"-{text}")
+
+    @staticmethod
+    def _binds_leading_literal(node: Optional[MathExpression]) -> bool:
+        """True if the text of node starts with a literal that is the operand of a
+        factorial or the base of a power."""
+        while isinstance(node, (MultiplyExpression, DivideExpression)):
+            node = node.left
+        if isinstance(node, PowerExpression):
+            node = node.left
+        return isinstance(node, FactorialExpression) or (
+            isinstance(node, ConstantExpression)
+            and isinstance(node.parent, PowerExpression)
         )
-        if isinstance(inner, binary_types):
-            inner = f"({inner})"
-        return self.with_color("-{}".format(inner))
 
     def to_math_ml_fragment(self) -> str:
         """Convert this single node into MathML."""
